@@ -531,9 +531,13 @@ def gen_commit_programs(r, n, big=0.05):
         algo = r.pick(L.ALGOS)
         d = G.data(r, big=big)
         ops, cases = [], []
-        prior = r.pick(["absent", "present", "removed"])
+        prior = r.pick(["absent", "present", "present", "removed"])
+        # the previous value is sometimes the very bytes (and algorithm) the new writer supplies: a rejected
+        # commit must not disturb content that an existing entry points to
+        same = prior == "present" and r.chance(0.5)
+        prev_data, prev_algo = (d, algo) if same else (b"previous value", "sha256")
         if prior in ("present", "removed"):
-            ops.append(w_oneshot(r.pick("sa"), "sha256", key, b"previous value"))
+            ops.append(w_oneshot(r.pick("sa"), prev_algo, key, prev_data))
         if prior == "removed":
             ops.append(f"remove {r.pick('sa')} c0 {hx(key)}")
         ops.append(f"metadata s c0 {hx(key)}"); before = len(ops) - 1
@@ -562,7 +566,8 @@ def gen_commit_programs(r, n, big=0.05):
         ops.append(f"read s c0 {hx(key)}")
         progs.append(Program(f"commit{i}", ops, tags={
             "commit": commit_idx, "before": before, "after": after, "size_kind": size_kind, "sri_kind": sri_kind,
-            "keyed": keyed, "algo": algo, "data": d, "declared": sri, "size": size, "key": key, "tmp": len(ops) - 2}))
+            "keyed": keyed, "algo": algo, "data": d, "declared": sri, "size": size, "key": key, "tmp": len(ops) - 2,
+            "prior": prior, "prev_data": prev_data, "final_read": len(ops) - 1}))
     return progs
 
 
@@ -599,6 +604,11 @@ def mon_commit(rr):
                     out.append(Failure("wrong_size_error", ci, f"size error reports {res[2:4]}, expected {[t['size'], len(t['data'])]}", sig=sig))
         if before != after:
             out.append(Failure("rejected_commit_mapped", t["after"], "the key's mapping changed although the commit was rejected", sig=sig))
+        if t.get("prior") == "present" and not pre_fail and t["final_read"] < len(rr.impl):
+            fr = toks(rr.impl[t["final_read"]])
+            if fr[0] != "ok" or unhx(fr[1]) != t["prev_data"]:
+                out.append(Failure("rejected_commit_broke_previous", t["final_read"],
+                                   f"after a rejected commit the key no longer reads its previous value ({' '.join(fr[:3])[:40]})", sig=sig))
     else:
         if pre_fail:
             out.append(Failure("good_write_failed", pre_fail[0], f"step before commit -> {pre_fail[1]}", sig=sig))
